@@ -55,6 +55,7 @@ type c17Case struct {
 	Sched     []int     `json:"sched"` // merge schedule the oracle uses (result must not depend on it)
 	Pipe      bool      `json:"pipe,omitempty"`
 	ViaOption bool      `json:"viaOption,omitempty"` // tools given by the WithToolList call option
+	ToolOpt   bool      `json:"toolOpt,omitempty"`   // a tool option is passed with the call (WithToolOption)
 }
 
 // ---- canonical observables ----
@@ -95,7 +96,11 @@ type c17Env struct {
 	mu     sync.Mutex
 	closed []bool
 	stray  int32 // executions whose argument names no call position
+	marker int   // value of the tool option passed with the call (0 = none passed)
+	badCtx int32 // executions that did not see their own call id / the tool option
 }
+
+type c17Opt struct{ marker int }
 
 func c17NewEnv(c *c17Case) *c17Env {
 	n := len(c.Calls)
@@ -160,13 +165,21 @@ func c17Pos(args string) int {
 }
 
 // enter blocks the tool execution for call position k until the script releases it.
-func (e *c17Env) enter(args string) (k int, leave func()) {
+func (e *c17Env) enter(ctx context.Context, args string, opts []tool.Option) (k int, leave func()) {
 	k = c17Pos(args)
 	if k < 0 || k >= len(e.gate) || e.c.Calls[k].Args != args {
 		atomic.AddInt32(&e.stray, 1)
 		return -1, func() {}
 	}
 	atomic.AddInt32(&e.count[k], 1)
+	// every runner (the inline one and the goroutines) must hand the tool the id of its own
+	// call in the context and the tool options of the node call
+	if compose.GetToolCallID(ctx) != e.c.Calls[k].ID {
+		atomic.AddInt32(&e.badCtx, 1)
+	}
+	if opts != nil && tool.GetImplSpecificOptions(&c17Opt{}, opts...).marker != e.marker {
+		atomic.AddInt32(&e.badCtx, 1)
+	}
 	<-e.gate[k]
 	return k, func() {
 		select {
@@ -212,8 +225,8 @@ func (b *c17Base) fault(k int) error {
 	return nil
 }
 
-func (b *c17Base) invoke(args string, outp func(string) string) (string, error) {
-	k, leave := b.env.enter(args)
+func (b *c17Base) invoke(ctx context.Context, args string, opts []tool.Option, outp func(string) string) (string, error) {
+	k, leave := b.env.enter(ctx, args, opts)
 	defer leave()
 	if err := b.fault(k); err != nil {
 		return "", err
@@ -221,8 +234,8 @@ func (b *c17Base) invoke(args string, outp func(string) string) (string, error) 
 	return outp(args), nil
 }
 
-func (b *c17Base) stream(args string, outp func(string) string) (*schema.StreamReader[string], error) {
-	k, leave := b.env.enter(args)
+func (b *c17Base) stream(ctx context.Context, args string, opts []tool.Option, outp func(string) string) (*schema.StreamReader[string], error) {
+	k, leave := b.env.enter(ctx, args, opts)
 	defer leave()
 	if err := b.fault(k); err != nil {
 		return nil, err
@@ -259,22 +272,34 @@ func (b *c17Base) outS(a string) string {
 type c17InvTool struct{ c17Base }
 
 func (t *c17InvTool) InvokableRun(ctx context.Context, args string, opts ...tool.Option) (string, error) {
-	return t.invoke(args, t.outI)
+	if opts == nil {
+		opts = []tool.Option{}
+	}
+	return t.invoke(ctx, args, opts, t.outI)
 }
 
 type c17StrTool struct{ c17Base }
 
 func (t *c17StrTool) StreamableRun(ctx context.Context, args string, opts ...tool.Option) (*schema.StreamReader[string], error) {
-	return t.stream(args, t.outS)
+	if opts == nil {
+		opts = []tool.Option{}
+	}
+	return t.stream(ctx, args, opts, t.outS)
 }
 
 type c17BothTool struct{ c17Base }
 
 func (t *c17BothTool) InvokableRun(ctx context.Context, args string, opts ...tool.Option) (string, error) {
-	return t.invoke(args, t.outI)
+	if opts == nil {
+		opts = []tool.Option{}
+	}
+	return t.invoke(ctx, args, opts, t.outI)
 }
 func (t *c17BothTool) StreamableRun(ctx context.Context, args string, opts ...tool.Option) (*schema.StreamReader[string], error) {
-	return t.stream(args, t.outS)
+	if opts == nil {
+		opts = []tool.Option{}
+	}
+	return t.stream(ctx, args, opts, t.outS)
 }
 
 type c17NoneTool struct{ c17Base }
@@ -363,10 +388,14 @@ func c17RunImpl(c *c17Case) *c17Obs {
 		conf.Tools = nil
 		callOpts = append(callOpts, compose.WithToolList(tools...))
 	}
+	if c.ToolOpt {
+		env.marker = 4242
+		callOpts = append(callOpts, compose.WithToolOption(tool.WrapImplSpecificOptFn(func(o *c17Opt) { o.marker = 4242 })))
+	}
 	if c.Handler {
 		conf.UnknownToolsHandler = func(ctx context.Context, name, input string) (string, error) {
 			b := &c17Base{env: env}
-			return b.invoke(input, func(a string) string { return "H:" + name + "(" + a + ")" })
+			return b.invoke(ctx, input, nil, func(a string) string { return "H:" + name + "(" + a + ")" })
 		}
 	}
 	tn, err := compose.NewToolNode(ctx, conf)
@@ -411,7 +440,7 @@ func c17RunImpl(c *c17Case) *c17Obs {
 			return obs
 		}
 		var gopts []compose.Option
-		if c.ViaOption {
+		if len(callOpts) > 0 {
 			gopts = append(gopts, compose.WithToolsNodeOption(callOpts...))
 		}
 		invoke = func() ([]*schema.Message, error) { return r.Invoke(ctx, input, gopts...) }
@@ -488,6 +517,9 @@ func c17RunImpl(c *c17Case) *c17Obs {
 		case n > 1:
 			obs.Note += fmt.Sprintf(" call %d executed %d times;", k, n)
 		}
+	}
+	if b := atomic.LoadInt32(&env.badCtx); b > 0 {
+		obs.Note += fmt.Sprintf(" %d executions without their own call id in the context / without the tool option;", b)
 	}
 	if s := atomic.LoadInt32(&env.stray); s > 0 {
 		obs.Note += fmt.Sprintf(" %d executions with arguments of no call;", s)
@@ -655,7 +687,7 @@ func c17Payload(r *vh.Rand) string {
 }
 
 func c17Gen(r *vh.Rand) *c17Case {
-	c := &c17Case{Assistant: !r.Chance(3), Handler: r.Bool(), Pipe: r.Bool(), ViaOption: r.Chance(12)}
+	c := &c17Case{Assistant: !r.Chance(3), Handler: r.Bool(), Pipe: r.Bool(), ViaOption: r.Chance(12), ToolOpt: r.Chance(40)}
 	// tools
 	nt := r.Range(1, 4)
 	names := []string{"a", "b", "c", "d"}
@@ -755,7 +787,7 @@ func c17Systematic(maxN int) []*c17Case {
 		for pi, sigma := range c17Perms(n) {
 			for fi, f := range fps {
 				for mi, mode := range []string{"invoke", "stream"} {
-					c := &c17Case{Assistant: true, Mode: mode, Host: []string{"standalone", "graph"}[(pi+fi+mi)%2], Sigma: sigma, Sched: []int{}, Pipe: (pi+fi)%2 == 0}
+					c := &c17Case{Assistant: true, Mode: mode, Host: []string{"standalone", "graph"}[(pi+fi+mi)%2], Sigma: sigma, Sched: []int{}, Pipe: (pi+fi)%2 == 0, ToolOpt: (pi+mi)%2 == 0}
 					for t := 0; t < 3; t++ {
 						c.Tools = append(c.Tools, c17Tool{Name: string(rune('a' + t)), Kind: kinds[(t+pi)%3], Tag: fmt.Sprintf("T%d", t)})
 					}
@@ -874,27 +906,53 @@ func c17Compare(ctx *vh.Ctx, c *c17Case, raw json.RawMessage) error {
 	if got.Class == "panic" {
 		ctx.Res.Dist("panic-escapes-standalone-inline-task0")
 	}
+	for _, m := range got.Collected {
+		if m == nil {
+			// a streamable tool with an empty stream: Invoke fails, the streamed form has a
+			// hole (outside tools_stream_agrees; Props/C17.lean empty_stream_disagrees)
+			ctx.Res.Dist("stream-hole-from-empty-tool-stream")
+			break
+		}
+	}
 	ctx.Res.Count(c17Key(c), len(c.Calls) >= 2 && m.Ran > 0)
 	ctx.Res.Sample(c)
 
-	// violation classes that need no model
-	if got.Class == "hang" {
-		ctx.Res.Disagree(vh.Disagreement{Signature: c17Sig(c, "hang"), What: "the call did not return within the timeout under the barrier script", Case: c, Model: want, Impl: got})
+	what, text := c17Diff(c, want, got)
+	if what == "" {
 		return nil
 	}
+	// shrink: drop trailing calls / chunkings / unused tools while the same observable differs
+	var sc *c17Case
+	var sw, sg *c17Obs
+	if ctx.Replay == nil {
+		sc, sw, sg = c17Shrink(ctx, c, what)
+	}
+	if sc != nil {
+		c, want, got = sc, sw, sg
+		_, text = c17Diff(c, want, got)
+	}
+	ctx.Res.Disagree(vh.Disagreement{Signature: c17Sig(c, what), What: text, Case: c, Model: want, Impl: got})
+	return nil
+}
+
+// c17Diff names the first compared observable on which the implementation and the model
+// differ ("" = agreement).
+func c17Diff(c *c17Case, want, got *c17Obs) (what, text string) {
+	// violation classes that need no model
+	if got.Class == "hang" {
+		return "hang", "the call did not return within the timeout under the barrier script"
+	}
 	if got.Class == "panic" && c.Host != "standalone" {
-		ctx.Res.Disagree(vh.Disagreement{Signature: c17Sig(c, "panic-escapes-run"), What: "a tool panic left the graph run as a panic instead of an error", Case: c, Model: want, Impl: got})
-		return nil
+		return "panic-escapes-run", "a tool panic left the graph run as a panic instead of an error"
 	}
 	// graphConcat: the framework concatenates before the next node; an error of that
 	// concatenation is an error of the run
 	if c.Host == "graphConcat" && want.Class == "ok" && want.CollErr != "" {
 		if got.Class != "err" {
-			ctx.Res.Disagree(vh.Disagreement{Signature: c17Sig(c, "concat-class"), What: "model: the streamed form cannot be concatenated (" + want.CollErr + "); implementation did not fail", Case: c, Model: want, Impl: got})
+			return "concat-class", "model: the streamed form cannot be concatenated (" + want.CollErr + "); the implementation did not fail"
 		}
-		return nil
+		return "", ""
 	}
-	what := ""
 	switch {
 	case got.Class != want.Class:
 		what = "class"
@@ -914,10 +972,134 @@ func c17Compare(ctx *vh.Ctx, c *c17Case, raw json.RawMessage) error {
 		what = "stream-concat"
 	}
 	if what != "" {
-		ctx.Res.Disagree(vh.Disagreement{Signature: c17Sig(c, what),
-			What: fmt.Sprintf("%s differs between the implementation and the model (completion order %v)", what, c.Sigma), Case: c, Model: want, Impl: got})
+		text = fmt.Sprintf("%s differs between the implementation and the model (completion order %v)", what, c.Sigma)
 	}
-	return nil
+	return what, text
+}
+
+func c17Clone(c *c17Case) *c17Case {
+	b, _ := json.Marshal(c)
+	var d c17Case
+	json.Unmarshal(b, &d)
+	if d.Calls == nil {
+		d.Calls = []c17Call{}
+	}
+	if d.Sigma == nil {
+		d.Sigma = []int{}
+	}
+	if d.Sched == nil {
+		d.Sched = []int{}
+	}
+	return &d
+}
+
+// c17Shrink tries smaller variants (at most ~40 oracle+implementation runs); a variant is
+// kept when the same observable still differs.
+func c17Shrink(ctx *vh.Ctx, c *c17Case, what string) (*c17Case, *c17Obs, *c17Obs) {
+	var best *c17Case
+	var bw, bg *c17Obs
+	cur := c
+	try := func(d *c17Case) bool {
+		raw, err := ctx.Oracle.Ask("C17", d)
+		if err != nil {
+			return false
+		}
+		var m c17Model
+		if json.Unmarshal(raw, &m) != nil {
+			return false
+		}
+		want := c17Expect(d, &m)
+		ctx.Progress.Mark(d)
+		got := c17RunImpl(d)
+		if w, _ := c17Diff(d, want, got); w == what && c17Sig(d, what) == c17Sig(c, what) {
+			best, bw, bg, cur = d, want, got, d
+			return true
+		}
+		return false
+	}
+	for budget := 40; budget > 0; {
+		progress := false
+		// drop the last call (positions of the others stay valid)
+		if n := len(cur.Calls); n > 1 {
+			d := c17Clone(cur)
+			d.Calls = d.Calls[:n-1]
+			var sg []int
+			for _, k := range d.Sigma {
+				if k != n-1 {
+					sg = append(sg, k)
+				}
+			}
+			d.Sigma = sg
+			if d.Sigma == nil {
+				d.Sigma = []int{}
+			}
+			d.Sched = []int{}
+			budget--
+			if try(d) {
+				progress = true
+				continue
+			}
+		}
+		// one chunk per stream, array-backed streams, tools from the config
+		if d := c17Clone(cur); true {
+			changed := d.Pipe || d.ViaOption || d.ToolOpt || len(d.Sched) > 0
+			d.Pipe, d.ViaOption, d.ToolOpt, d.Sched = false, false, false, []int{}
+			for i := range d.Calls {
+				if len(d.Calls[i].Cuts) > 0 {
+					d.Calls[i].Cuts = nil
+					changed = true
+				}
+			}
+			if changed {
+				budget--
+				if try(d) {
+					progress = true
+				}
+			}
+		}
+		// drop tools no call names
+		if d := c17Clone(cur); true {
+			used := map[string]bool{}
+			for _, cl := range d.Calls {
+				used[cl.Name] = true
+			}
+			var ts []c17Tool
+			for _, t := range d.Tools {
+				if used[t.Name] {
+					ts = append(ts, t)
+				}
+			}
+			if len(ts) < len(d.Tools) && len(ts) > 0 {
+				d.Tools = ts
+				budget--
+				if try(d) {
+					progress = true
+				}
+			}
+		}
+		// identity completion order
+		if d := c17Clone(cur); true {
+			ident := true
+			for i, k := range d.Sigma {
+				if i != k {
+					ident = false
+				}
+			}
+			if !ident {
+				for i := range d.Sigma {
+					d.Sigma[i] = i
+				}
+				budget--
+				if try(d) {
+					progress = true
+				}
+			}
+		}
+		if !progress {
+			break
+		}
+	}
+	return best, bw, bg
 }
 
 func c17Batch(ctx *vh.Ctx, cs []*c17Case) error {
@@ -941,7 +1123,7 @@ func c17Batch(ctx *vh.Ctx, cs []*c17Case) error {
 }
 
 func runC17(ctx *vh.Ctx) error {
-	ctx.Res.Rule = "tool-call lists of 0-6 calls (repeated tools, unknown names, odd ids) x invokable-only / streamable-only / both tools x completion order forced by a barrier script (tool i returns only when released; releases follow the permutation) x failing / panicking subsets x with/without unknown-tool handler x Invoke / Stream x standalone / graph / graph with framework-side concatenation; systematic part: every permutation of n<=4 calls x 0-2 faulty positions; non-trivial = at least 2 calls and the tools were run; distinct by (mode, host, tool kinds, call names, permutation, fault positions, handler, tool-list option)"
+	ctx.Res.Rule = "tool-call lists of 0-6 calls (repeated tools, unknown names, odd ids) x invokable-only / streamable-only / both tools x completion order forced by a barrier script (tool i returns only when released; releases follow the permutation) x failing / panicking subsets x with/without unknown-tool handler x Invoke / Stream x standalone / graph / graph with framework-side concatenation; systematic part: every permutation of n<=4 (thorough: n<=5) calls x 0-2 faulty positions (error/panic) x Invoke/Stream; every execution also checks that the tool saw its own call id in the context and the tool option of the call; non-trivial = at least 2 calls and the tools were run; distinct by (mode, host, tool kinds, call names, permutation, fault positions, handler, tool-list option)"
 	if ctx.Replay != nil {
 		var c c17Case
 		if err := json.Unmarshal(ctx.Replay, &c); err != nil {
@@ -949,7 +1131,7 @@ func runC17(ctx *vh.Ctx) error {
 		}
 		return c17Batch(ctx, []*c17Case{&c})
 	}
-	sys := c17Systematic(ctx.N(3, 4))
+	sys := c17Systematic(ctx.N(4, 5))
 	// the systematic part is deterministic; the seed picks where it starts so that quick
 	// runs with different seeds cover different slices when the budget cuts it short
 	off := 0
@@ -965,7 +1147,7 @@ func runC17(ctx *vh.Ctx) error {
 			return err
 		}
 	}
-	n := ctx.N(3000, 60000)
+	n := ctx.N(12000, 100000)
 	for done := 0; done < n && ctx.TimeLeft(); done += 200 {
 		var b []*c17Case
 		for j := 0; j < 200 && done+j < n; j++ {
